@@ -25,7 +25,7 @@ PY
     fi
   fi
   find /repo -name '*.orig' -o -name '*.rej' | xargs -r rm -f
-  timeout 1800 ./check $P --tier quick > /tmp/sweep-$N.out 2>&1; RC=$?
+  VERIF_EVIDENCE_DIR=/tmp/verif-evidence-sweep timeout 1800 ./check $P --tier quick > /tmp/sweep-$N.out 2>&1; RC=$?
   git -C /repo checkout -q -- .; git -C /repo clean -fdq
   KEYS=$(for f in $(grep "^VIOLATION" /tmp/sweep-$N.out | sed 's/.*replay=\([^ ]*\).*/\1/'); do python3 -c "import json,sys;d=json.load(open('/verif/'+sys.argv[1]));print(d.get('key') or d.get('kind'))" $f; done | sort -u | tr '\n' ',')
   echo "$N $P rc=$RC $HOW $KEYS"
